@@ -151,7 +151,9 @@ func HarnessC28Name() {
 	if kind == 0 {
 		m, err = mh.Encode(verifrt.NondetBytes("d", 32), mh.SHA2_256)
 	} else {
-		m, err = mh.Encode(verifrt.NondetBytes("d", verifrt.NondetRange("idlen", 0, 6)), mh.IDENTITY)
+		// identity multihashes carry inlined public keys: Ed25519 36 bytes, secp256k1 37 bytes (libp2p inlines up to 42)
+		lens := []int{0, 1, 2, 5, 35, 36, 37, 38, 41, 42}
+		m, err = mh.Encode(verifrt.NondetBytes("d", lens[verifrt.NondetRange("idlen", 0, len(lens)-1)]), mh.IDENTITY)
 	}
 	if err != nil {
 		panic(err)
